@@ -102,7 +102,7 @@ def _check_main(run, P):
     run.do(_genfunc, run, P)
     # lowering and plan execution are part of both back ends' contract
     run.rule("C01.lower", "the lowering keeps order, loops and guards (shared with "
-             "C05.topo / C05.wrap / C05.loops / C05.cond / C05.walker)", minimum=15)
+             "C05.topo / C05.wrap / C05.table / C05.walker)", minimum=15)
     run.rule("C01.plan", "the interpreter's plan execution (shared with C04.post / "
              "C04.front / C04.mark / C04.dispatch / C04.reset / C04.sinks / "
              "C04.guardeval)", minimum=15)
@@ -118,8 +118,7 @@ def _check_main(run, P):
     for src_rule in ("C05.topo", "C05.wrap"):
         del run.rule_docs[src_rule]
         del run.minimum[src_rule]
-    _alias(run, "C05.loops", "C01.lower", lambda: c05._loops(run, P))
-    _alias(run, "C05.cond", "C01.lower", lambda: c05._cond(run, P))
+    run.do(c05.lowering_table, run, P, "C01.lower")
     _alias(run, "C05.walker", "C01.lower", lambda: c05._walker(run, P))
     C = P.cls(c04.EC)
     _alias(run, "C04.post", "C01.plan", lambda: c04._post(run, P, C))
@@ -222,7 +221,7 @@ def _arrays(run, P):
     src = ast.unparse(gl.node)
     run.ob("C01.arrays", gl, gl.node, "loops[0]" in src and "loops[1:]" in src and "lbound" in src,
            construct="generated code: one ForLoop node per loop, outermost first, bounds kept as "
-                     "expressions of the node (C05.loops has the details)",
+                     "expressions of the node (C05.table has the details)",
            why="the emitted nest evaluates inner bounds inside the outer loop")
 
 # }}}
